@@ -308,3 +308,45 @@ Proof.
   - rewrite Nat.eqb_refl. auto.
   - destruct (Nat.eqb_spec k k'); [discriminate|]. cbn. destruct (Nat.eqb_spec k k'); [congruence|]. f_equal. auto.
 Qed.
+
+Lemma alist_split {V : Type} k (v : V) m : NoDup (akeys m) -> aget k m = Some v ->
+  exists l1 l2, m = l1 ++ (k, v) :: l2 /\ adel k m = l1 ++ l2 /\
+                (forall v', aset k v' m = l1 ++ (k, v') :: l2) /\
+                ~ In k (akeys l1) /\ ~ In k (akeys l2).
+Proof.
+  induction m as [|[k' v'] t IH]; cbn; intros Hnd H; [discriminate|].
+  inversion Hnd as [|? ? Hn Hnd']; subst.
+  destruct (Nat.eqb_spec k k') as [E|E].
+  - inversion H; subst. exists [], t. cbn. repeat split; auto.
+    + apply adel_notin; auto.
+  - destruct (IH Hnd' H) as (l1 & l2 & E1 & E2 & E3 & N1 & N2).
+    exists ((k', v') :: l1), l2. cbn. repeat split; auto.
+    + rewrite E1. reflexivity.
+    + rewrite E2. reflexivity.
+    + intros v0. rewrite E3. reflexivity.
+    + intros [H0|H0]; [congruence|tauto].
+Qed.
+
+Lemma adel_aset_same {V : Type} k (v : V) m : adel k (aset k v m) = adel k m.
+Proof.
+  induction m as [|[k' v'] t IH]; cbn.
+  - rewrite Nat.eqb_refl. auto.
+  - destruct (Nat.eqb_spec k k'); cbn.
+    + rewrite Nat.eqb_refl. auto.
+    + destruct (Nat.eqb_spec k k'); [congruence|]. f_equal. auto.
+Qed.
+
+Lemma adel_app {V : Type} k (m1 m2 : list (nat * V)) : adel k (m1 ++ m2) = adel k m1 ++ adel k m2.
+Proof. induction m1 as [|[k' v'] t IH]; cbn; auto. destruct (Nat.eqb k k'); cbn; congruence. Qed.
+
+Lemma adel_idem {V : Type} k (m : list (nat * V)) : adel k (adel k m) = adel k m.
+Proof.
+  induction m as [|[k' v'] t IH]; cbn; auto. destruct (Nat.eqb_spec k k'); cbn; auto.
+  destruct (Nat.eqb_spec k k'); [congruence|]. f_equal. auto.
+Qed.
+
+Lemma adel_apromote_same {V : Type} k (m : list (nat * V)) : adel k (apromote k m) = adel k m.
+Proof.
+  unfold apromote. destruct (aget k m); auto.
+  rewrite adel_app, adel_idem. cbn. rewrite Nat.eqb_refl. apply app_nil_r.
+Qed.
